@@ -1072,7 +1072,7 @@ func (t *TagExpr) getValue(fieldSelector string, subFields []interface{}) (v int
 		case reflect.Slice, reflect.Array, reflect.String:
 			if float, ok := k.(float64); ok {
 				idx := int(float)
-				if idx >= vv.Len() {
+				if idx < 0 || idx >= vv.Len() {
 					return nil
 				}
 				vv = vv.Index(idx)
